@@ -40,17 +40,37 @@ def show(x):
 
 
 class Spec(L.Spec):
+    go_on_after_refusal = True
+
     def __init__(self, key):
         _, role, start, tier = key
         depth = 6 if tier == "quick" else None
         super().__init__(role == "client", depth, upgraded=(start == "upgraded"))
         self.name = "c06-%s-%s-%s" % (role, start, tier)
+        if not self.client:
+            # the local alt-svc action of the quantifier: whatever it does (C24 judges that), it is no stream transition
+            self.menu = self.menu[:-1] + ["l:altsvc:%d" % self.sids[0]] + self.menu[-1:]
+
+    def execute(self, st, lab):
+        if lab.startswith("l:altsvc:"):
+            sid = int(lab.split(":")[2])
+            m = st.h.m
+            s = m.get(sid)
+            info = {"dir": "l", "kind": "altsvc", "es": False, "sid": sid, "status": m.status(sid),
+                    "state": s.state if s is not None else "idle", "closed_by": s.closed_by if s is not None else None,
+                    "sent": s.sent if s is not None else "none", "recv": s.recv if s is not None else "none"}
+            return st.h.api("advertise_alternative_service", b'h2=":443"', stream_id=sid), info
+        return super().execute(st, lab)
 
     def judge(self, st, lab, info, o, bad):
         state_desc = info["state"] if info["state"] != "closed" else "closed/%s" % info["closed_by"]
         if info["dir"] == "l":
             if info["kind"] == "push":
                 return "push-" + o.kind         # judged by C22
+            if info["kind"] == "altsvc":
+                if o.kind == "raise" and not o.is_h2:
+                    bad("non-h2-exception", "%s in state %s raised %s" % (lab, state_desc, o.exc_name), action="altsvc", got=o.exc_name)
+                return "altsvc-" + o.kind       # acceptance is judged by C24; here only what follows matters
             v = info["verdict"]
             got = "ok" if o.kind == "ok" else o.exc_name
             if v == "ok":
